@@ -467,11 +467,17 @@ func (w *vcWorld) build(name string) bpv7.Bundle {
 	if a.Time {
 		flags |= bpv7.RequestStatusTime
 	}
-	cts := bpv7.NewCreationTimestamp(bpv7.DtnTimeFromTime(ts), 0)
+	// what an application writes into the sequence field is its own business (the node assigns the number): bundles of one
+	// (source, time) group arrive with different values there, the first of the catalogue with 0
+	preset := uint64(0)
+	if a.Origin == "app" && a.Tsg > 0 && idx > 0 {
+		preset = uint64(idx)*3 + 1
+	}
+	cts := bpv7.NewCreationTimestamp(bpv7.DtnTimeFromTime(ts), preset)
 	if a.Clockless {
 		cts = bpv7.NewCreationTimestamp(bpv7.DtnTimeEpoch, uint64(idx))
 		if a.Tsg > 0 {
-			cts = bpv7.NewCreationTimestamp(bpv7.DtnTimeEpoch, 0)
+			cts = bpv7.NewCreationTimestamp(bpv7.DtnTimeEpoch, preset)
 		}
 	}
 	pb := bpv7.NewPrimaryBlock(flags, bpv7.MustNewEndpointID(dst), bpv7.MustNewEndpointID(src), cts, life)
